@@ -189,6 +189,9 @@ def end_to_end_cases(E, tier):
 def cases(E):
     import os
     cs = end_to_end_cases(E, os.environ.get("VERIF_TIER", "quick")) + literal_cases(E)
+    # the inferred width is that of the value the operand has WHEN it is asked for (the same source operand is expanded many times with other bindings)
+    from vf.props import C02 as c02
+    cs += c02.value_node_cases(E)
     from vf.specs import syntax
     for shp in syntax.SHAPES:
         for ws in (False, True):
